@@ -29,6 +29,10 @@
 #include "internal/rewind_guard.hpp"
 #include "internal/until.hpp"
 
+#if defined( TAO_PEGTL_VERIF )
+#include "internal/verif_hook.hpp"
+#endif
+
 namespace TAO_PEGTL_NAMESPACE
 {
    namespace internal
@@ -98,16 +102,25 @@ namespace TAO_PEGTL_NAMESPACE
 
          void bump( const std::size_t in_count = 1 ) noexcept
          {
+#if defined( TAO_PEGTL_VERIF )
+            verif::on_bump( m_current.data, in_count, m_end );
+#endif
             internal::bump( m_current, in_count, Eol::ch );
          }
 
          void bump_in_this_line( const std::size_t in_count = 1 ) noexcept
          {
+#if defined( TAO_PEGTL_VERIF )
+            verif::on_bump( m_current.data, in_count, m_end );
+#endif
             internal::bump_in_this_line( m_current, in_count );
          }
 
          void bump_to_next_line( const std::size_t in_count = 1 ) noexcept
          {
+#if defined( TAO_PEGTL_VERIF )
+            verif::on_bump( m_current.data, in_count, m_end );
+#endif
             internal::bump_to_next_line( m_current, in_count );
          }
 
@@ -190,16 +203,25 @@ namespace TAO_PEGTL_NAMESPACE
 
          void bump( const std::size_t in_count = 1 ) noexcept
          {
+#if defined( TAO_PEGTL_VERIF )
+            verif::on_bump( m_current, in_count, m_end );
+#endif
             m_current += in_count;
          }
 
          void bump_in_this_line( const std::size_t in_count = 1 ) noexcept
          {
+#if defined( TAO_PEGTL_VERIF )
+            verif::on_bump( m_current, in_count, m_end );
+#endif
             m_current += in_count;
          }
 
          void bump_to_next_line( const std::size_t in_count = 1 ) noexcept
          {
+#if defined( TAO_PEGTL_VERIF )
+            verif::on_bump( m_current, in_count, m_end );
+#endif
             m_current += in_count;
          }
 
@@ -297,6 +319,9 @@ namespace TAO_PEGTL_NAMESPACE
 
       [[nodiscard]] char peek_char( const std::size_t offset = 0 ) const noexcept
       {
+#if defined( TAO_PEGTL_VERIF )
+         verif::on_peek( this->current(), offset, this->end() );
+#endif
          return this->current()[ offset ];
       }
 
